@@ -74,7 +74,7 @@ class SynchronousDeferredRunTest(_DeferredRunTest):
     Deferreds that have already fired.
     """
 
-    def _run_user(self, function, *args, **kwargs):
+    def _run_user(self, function, /, *args, **kwargs):
         d = defer.maybeDeferred(function, *args, **kwargs)
         d.addErrback(self._got_user_failure)
         result = extract_result(d)
@@ -459,7 +459,7 @@ class AsynchronousDeferredRunTest(_DeferredRunTest):
         if successful:
             self.result.addSuccess(self.case, details=self.case.getDetails())
 
-    def _run_user(self, function, *args, **kwargs):
+    def _run_user(self, function, /, *args, **kwargs):
         """Run a user-supplied function.
 
         This just makes sure that it returns a Deferred, regardless of how the
